@@ -17,10 +17,11 @@ structure FreeMany (a : Arena) (fl F : List Nat) (b : Arena) : Prop where
   self : ∀ j, j ∈ F → ∀ s, a.slot j = some s → ∃ s' nf, b.slot j = some s' ∧
     s'.stamp = (if s.stamp < 32767 then -s.stamp - 1 else -s.stamp) ∧ s'.data = .nextFree nf
   length : b.nodes.length = a.nodes.length
+  payload : ∀ k s v, k ∉ F → a.slot k = some s → s.data = .data v → ∃ s', b.slot k = some s' ∧ s'.data = .data v
 
 theorem FreeMany.refl {a : Arena} {fl : List Nat} (f : FreeOk a fl) : FreeMany a fl [] a :=
   ⟨by simpa using f, fun _ => rfl, fun _ _ => rfl, fun k s _ hs => ⟨s, hs, Iff.rfl⟩,
-   (fun j hj => by cases hj), rfl⟩
+   (fun j hj => by cases hj), rfl, fun k s v _ hs hd => ⟨s, hs, hd⟩⟩
 
 theorem FreeMany.slot_of {a b : Arena} {fl F : List Nat} (m : FreeMany a fl F b) {k : Nat} {s : Slot}
     (hs : a.slot k = some s) : ∃ s', b.slot k = some s' ∧ s'.ptrs = s.ptrs := by
@@ -41,7 +42,13 @@ theorem FreeMany.slot_other {a b : Arena} {fl F : List Nat} (m : FreeMany a fl F
 theorem FreeMany.snoc {a b b1 : Arena} {fl F : List Nat} {c : Nat} (m : FreeMany a fl F b)
     (st : FreeStep b (fl ++ F) c b1) (hc : c ∉ F) : FreeMany a fl (F ++ [c]) b1 := by
   refine ⟨by rw [← List.append_assoc]; exact st.free, fun k => (st.ptrs k).trans (m.ptrs k), ?_, ?_, ?_,
-    st.length.trans m.length⟩
+    st.length.trans m.length, ?_⟩
+  rotate_right
+  · intro k s v hk hs hd
+    have h1 : k ∉ F := fun h => hk (List.mem_append_left _ h)
+    have h2 : k ≠ c := fun e => hk (by rw [e]; simp)
+    obtain ⟨s1, hs1, hd1⟩ := m.payload k s v h1 hs hd
+    exact st.payload k s1 v h2 hs1 hd1
   · intro k hk
     have h1 : k ∉ F := fun h => hk (List.mem_append_left _ h)
     have h2 : k ≠ c := fun e => hk (by rw [e]; simp)
